@@ -3,6 +3,7 @@ import DiskfsModel.Model.Ranges
 import DiskfsModel.Model.Fat.Emit
 import DiskfsModel.Model.Fat.DirCodec
 import DiskfsModel.Generated.Fat
+import DiskfsModel.Model.RangesExt4
 open Diskfs Driver
 
 def regionsStr (rs : List Diskfs.Ranges.Region) : String :=
@@ -59,10 +60,40 @@ def fatOp (args : List String) : String :=
 
 end Driver.RangesFat
 
+namespace Driver.RangesExt4
+open Diskfs.Ext4.Mkfs Diskfs.Ranges.Ext4
+
+/-- `ranges.ext4`: every (offset, length, multiplicity) of a real ext4 write log classified against the layout
+    the mkfs model computes from the parameters (Model/RangesExt4.lean `classify`), as per-class counts, plus the
+    number of writes ending at or below numBlocks × blockSize and the two layout predicates -/
+def ext4Op (args : List String) : String :=
+  let p : Params := Params.mk (argNatD args "size") (argNatD args "spb") (argNatD args "bpg")
+    (argNatD args "iratio") (argNatD args "icount") (argNatD args "logflex")
+    (argNatD args "resize" == 1) (argNatD args "flex" == 1) (argNatD args "bit64" == 1)
+  match mkLayout p with
+  | .error _ => "refused"
+  | .ok l =>
+    let entries : List (Nat × Nat × Nat) := (((arg args "ws").getD "").splitOn ",").filterMap fun s =>
+      match s.splitOn ":" with
+      | [a, b, c] => match a.toNat?, b.toNat?, c.toNat? with
+        | some x, some y, some z => some (x, y, z)
+        | _, _, _ => none
+      | _ => none
+    let cls := entries.map fun e => (classify l p.flex e.1 e.2.1, e.2.2)
+    let count (k : Cls) : Nat := ((cls.filter fun c => c.1 == k).map (·.2)).sum
+    let inside := ((entries.filter fun e => decide (e.1 + e.2.1 ≤ l.numBlocks * l.bs)).map (·.2.2)).sum
+    let all : List Cls := [.zero, .boot, .sb, .gdt, .rsv, .bbm, .ibm, .itab, .inode, .data, .out]
+    let fields := all.map fun k => s!"{k.name}={count k}"
+    "\t".intercalate fields ++
+      s!"\tinside={inside}\tfits={if decide (Fits l p.flex) then 1 else 0}\tbfit={if decide (BackupsFit l) then 1 else 0}"
+
+end Driver.RangesExt4
+
 def main : IO Unit := Driver.runLoop fun op args =>
   match op with
   | "ranges.gpt" =>
     s!"ws={regionsStr (Diskfs.Ranges.gptRegions (argNatD args "lss") (argNatD args "size") (argNatD args "pmbr" == 1))}\tok=1"
   | "ranges.mbr" => s!"ws={regionsStr Diskfs.Ranges.mbrRegions}\tok=1"
   | "ranges.fat" => Driver.RangesFat.fatOp args
+  | "ranges.ext4" => Driver.RangesExt4.ext4Op args
   | _ => "unknown-op"
